@@ -202,7 +202,7 @@ Section StepsB4.
       + intros t' r' Hf. assert (Hf' : vb_full (bvs a t') = Some r') by (revert Hf; unfold fn; destruct (Nat.eqb_spec t' t) as [->|]; auto).
         destruct (R6 t' r' Hf') as (Y1 & Y2). split; [now rewrite Vo|].
         destruct (Nat.eq_dec r' r) as [->|N]; [rewrite fn_same; discriminate|rewrite fn_other by exact N; exact Y2].
-    - destruct W1 as [W1 W2 W3 W4 W5 W6 W7].
+    - destruct W1 as [W1 W2 W3 W4 W5 W6 W7 W8 W9].
       assert (Eec : forall r', r' <> r -> ec g' (aux_init a t r b) r' = ec g a r').
       { intros r' N. apply ec_ext; cbn [aux_init rch rw moved]; auto; rewrite fn_other by exact N; reflexivity. }
       assert (Eec0 : ec g' (aux_init a t r b) r = []).
@@ -216,7 +216,7 @@ Section StepsB4.
       + intros t' r'. cbn [aux_init bvs moved rw]. intros Hm Hc.
         destruct (Nat.eq_dec t' t) as [->|Nt]; [rewrite fn_same in Hm; cbn in Hm; discriminate|]. rewrite fn_other in Hm, Hc by exact Nt.
         assert (N : r' <> r) by (eapply Hexcl; eauto). rewrite !fn_other by exact N. apply (W6 t' r'); auto.
-      + change (oob g') with (oob g). intros Hoob. destruct (W7 Hoob) as [C1 C2 C3 C4 C5 C6]. constructor; cbn [aux_init bvs wh tl rch].
+      + change (oob g') with (oob g). intros Hoob. destruct (W7 Hoob) as [C1 C2 C3 C4 C5 C6 C7]. constructor; cbn [aux_init bvs wh tl rch].
         * exact C1.
         * intros p r' H. destruct (C2 p r' H) as (X1 & X2). rewrite El. split; auto.
           destruct (Nat.eq_dec r' r) as [->|N]; [rewrite Hec0 in X2; contradiction|]. rewrite Eec by exact N. exact X2.
@@ -229,5 +229,9 @@ Section StepsB4.
           { intros ->. pose proof O1 as [_ _ O3 _ _]. destruct (O3 t' r nx H') as (_ & _ & _ & [Z|Z]); [congruence|].
             assert (t = t') by (eapply (JO_excl g a t t' r); eauto). subst t'. congruence. }
           rewrite fn_other by exact N. eapply C6; eauto.
+        * intros t' r' H. assert (H' : vb_arr (bvs a t') = Some r') by (revert H; unfold fn; destruct (Nat.eqb_spec t' t) as [->|]; cbn; auto).
+          destruct (C7 t' r' H') as (X1 & X2). split; [now rewrite Vo|].
+          destruct (Nat.eq_dec r' r) as [->|N]; [rewrite fn_same; discriminate|rewrite fn_other by exact N; exact X2].
+      + apply (JH_frame a _ tr tr); auto. intros t'. cbn [bvs aux_init]. unfold fn. destruct (Nat.eqb_spec t' t) as [->|]; auto.
   Qed.
 End StepsB4.
